@@ -608,6 +608,31 @@ impl Runner {
                 let outs: Vec<String> = w[1..].iter().map(|t| show_pos(ts.get_position(fb(t)))).collect();
                 format!("{} {} {} {} {}", ts.get_delay().to_bits(), ts.get_cycle_duration().to_bits(), show_repeat(ts.get_repeat()), show_dur(ts.get_duration()), outs.join(" "))
             }
+            "easepar" => {
+                // `easepar <easing> <x>…`: the easing evaluated from eight threads at once (each owns its own clone and runs through
+                // the xs in its own rotation, 2000 rounds), against the single-threaded results: prints those and the number of
+                // concurrent evaluations that differed from them
+                let e = parse_easing(w[1]);
+                let xs: Vec<f32> = w[2..].iter().map(|t| fb(t)).collect();
+                let want: Vec<u32> = xs.iter().map(|x| fbits(e.calc(*x))).collect();
+                let bad = std::sync::atomic::AtomicU64::new(0);
+                std::thread::scope(|sc| {
+                    for th in 0..8usize {
+                        let e = e.clone();
+                        let (xs, want, bad) = (&xs, &want, &bad);
+                        sc.spawn(move || {
+                            let n = xs.len();
+                            for round in 0..2000usize {
+                                for k in 0..n {
+                                    let i = (k + th + round) % n;
+                                    if fbits(e.calc(xs[i])) != want[i] { bad.fetch_add(1, std::sync::atomic::Ordering::Relaxed); }
+                                }
+                            }
+                        });
+                    }
+                });
+                format!("{} {}", want.iter().map(|v| v.to_string()).collect::<Vec<_>>().join(" "), bad.load(std::sync::atomic::Ordering::Relaxed))
+            }
             "easeraw" => {
                 // the custom function itself, not wrapped in `Easing::Custom` ("a custom easing is used as given")
                 let c = Cust(w[1][1..].parse().unwrap());
